@@ -18,7 +18,7 @@ def config(tier):
     return {
         "hashseeds": [0, 1, 2] if q else [0, 1, 2, 3, 4, 5, 6, 7],
         "families": ["DAG5"],
-        "mc": [{"module": "MCRemoveUnloaded", "cfg": "MCRemoveUnloaded", "workers": 4, "timeout": 900}],
+        "mc": [{"module": "MCRemoveUnloaded", "cfg": "MCRemoveUnloaded", "workers": 4, "timeout": 900, "env": {} if q else {"RU_FULL": "1"}}],
         "shards": 8 if q else 16,
         "negctl": 12,
     }
